@@ -230,6 +230,9 @@ def random_scenarios(c, n, tr):
             rules.append(mkrule(res, num, den, iv, ref, 1))
             if ref == 0 and rng.random() < 0.15:
                 rules[-1]['leftref'] = 3 - res      # own-resource rule with a left-over RefResource (must be ignored)
+        if rng.random() < 0.15:
+            # a pacing rule (throttling, unbounded queue) somewhere in the list of resource 1: the reject rules behind it are reached later
+            rules.insert(rng.randint(0, len(rules)), dict(res=1, num=1000, den=1, I=1000, ref=0, bl=500, pace=True))
         s = [dict(op='new', tr=tr, t=rng.choice([1, 499, 500, 501, 777, 1000, 9999, rng.randint(1, 30000)]), unit=1, nres=nres, rules=rules)]
         t = s[0]['t']
         rtypes = rng.choice([None, None, [1], [2, 3], [0, 1, 4]])
